@@ -51,6 +51,7 @@ struct Agg {
     nontrivial: u64,
     order_checks: u64,
     interp_checks: u64,
+    subset_evals: u64,
     viol: Vec<(String, String, serde_json::Value)>,
     samples: Vec<serde_json::Value>,
 }
@@ -251,6 +252,49 @@ fn check_set(sp: &Space, set: &[usize], case_no: u64, agg: &mut Agg) {
             }
         }
     }
+
+    // defining subsets: values for only some of the model's locations (always the default). The deltas
+    // returned for the defined masters, applied with the regions they come with, must reproduce every
+    // DEFINED master (the API computes each defined master against the earlier defined ones only).
+    if n >= 3 && n <= 7 {
+        for mask in 0u32..(1u32 << (n - 1)) {
+            let defined: Vec<usize> = std::iter::once(0).chain((1..n).filter(|i| mask & (1 << (i - 1)) != 0)).collect();
+            if defined.len() == n || defined.len() < 2 {
+                continue;
+            }
+            for (variant, rounded) in [(0usize, false), (1, true)] {
+                let vals: Vec<f64> = defined.iter().map(|i| sp.values[(i * 3 + variant + 1) % nvals] + *i as f64 * 17.0).collect();
+                let rounding = if rounded { RoundingBehaviour::RoundTiesEven } else { RoundingBehaviour::None };
+                let seqs: HashMap<NormalizedLocation, Vec<f64>> = defined.iter().zip(&vals).map(|(i, v)| (nlocs[*i].clone(), vec![*v])).collect();
+                let deltas = match model.deltas_with_rounding::<f64, f64>(&seqs, rounding) {
+                    Ok(d) => d,
+                    Err(e) => {
+                        bad("subset-deltas-error", format!("deltas failed for defined masters {defined:?}: {e}"), agg);
+                        return;
+                    }
+                };
+                agg.evals += 1;
+                agg.subset_evals += 1;
+                if deltas.len() != defined.len() {
+                    bad("subset-delta-count", format!("{} delta sets for {} defined masters {defined:?}", deltas.len(), defined.len()), agg);
+                }
+                for (i, v) in defined.iter().zip(&vals) {
+                    let l = &locs[*i];
+                    let lt: Vec<(Tag, f64)> = tags.iter().cloned().zip(l.iter().cloned()).collect();
+                    let sum: f64 = deltas.iter().map(|(r, d)| spec_scalar(r, &lt) * d[0]).sum();
+                    let err = (sum - v).abs();
+                    let tol = if rounded { 0.5 + 1e-9 } else { 1e-9 };
+                    if err > tol {
+                        bad(
+                            "subset-reproduction",
+                            format!("values only at masters {defined:?} of {n}: master at {l:?} should give {v}, the deltas give {sum} ({})", if rounded { "rounded" } else { "unrounded" }),
+                            agg,
+                        );
+                    }
+                }
+            }
+        }
+    }
 }
 
 fn permutations(n: usize) -> Vec<Vec<usize>> {
@@ -280,14 +324,19 @@ fn main() {
     // (axes, alphabet, max masters incl. default)
     let base = vec![-1.0, -0.5, 0.0, 0.5, 1.0];
     let fine = vec![-1.0, -0.5, 0.0, 0.25, 1.0 / 3.0, 0.5, 1.0];
+    // three values on one side of the default: a master can be cut from both sides on one axis
+    let quarters = vec![-1.0, -0.5, 0.0, 0.25, 0.5, 0.75, 1.0];
     let plans: Vec<(usize, Vec<f64>, usize, usize)> = match args.tier {
-        // (n axes, alphabet, max set size, all value vectors for sets up to this size)
-        Tier::Quick => vec![(1, fine.clone(), 7, 4), (2, base.clone(), 4, 3), (3, base.clone(), 3, 3)],
+        // (n axes, alphabet, max number of non-default masters, all value vectors for sets up to this size)
+        Tier::Quick => vec![(1, fine.clone(), 7, 4), (1, quarters.clone(), 7, 4), (2, base.clone(), 5, 3), (2, quarters.clone(), 5, 3), (3, base.clone(), 4, 3)],
         Tier::Thorough => vec![
             (1, fine.clone(), 7, 5),
+            (1, quarters.clone(), 7, 5),
             (2, base.clone(), 6, 4),
             (2, fine.clone(), 4, 3),
+            (2, quarters.clone(), 5, 3),
             (3, base.clone(), 4, 3),
+            (3, vec![-1.0, 0.0, 0.25, 0.5, 0.75, 1.0], 4, 3),
             (4, vec![-1.0, 0.0, 0.5, 1.0], 3, 3),
         ],
     };
@@ -355,6 +404,7 @@ fn main() {
                         agg.nontrivial += a.nontrivial;
                         agg.order_checks += a.order_checks;
                         agg.interp_checks += a.interp_checks;
+                        agg.subset_evals += a.subset_evals;
                         agg.viol.extend(a.viol);
                         if agg.samples.len() < 2 {
                             agg.samples.extend(a.samples);
@@ -384,6 +434,7 @@ fn main() {
             total.nontrivial += a.nontrivial;
             total.order_checks += a.order_checks;
             total.interp_checks += a.interp_checks;
+            total.subset_evals += a.subset_evals;
             total.viol.extend(a.viol);
             if total.samples.len() < 6 {
                 total.samples.extend(a.samples.into_iter().take(1));
@@ -398,10 +449,11 @@ fn main() {
     }
     rep.set("evaluations", total.evals);
     rep.set("distinct_nontrivial", total.nontrivial);
-    rep.set("rule", "every set of master locations containing the origin over the listed coordinate alphabets up to the listed size (every axis must have extent); per set: unit value vectors unrounded+rounded, all value vectors over {0,1,10.5,-7,333} for small sets (else 4 rotating vectors), all insertion orders (<=4 masters) or 3 orders; non-trivial = sets in which some non-default region has a non-zero scalar at more than one master (overlapping influence)");
+    rep.set("rule", "every set of master locations containing the origin over the listed coordinate alphabets up to the listed size (every axis must have extent); per set: unit value vectors unrounded+rounded, all value vectors over {0,1,10.5,-7,333} for small sets (else 4 rotating vectors), all insertion orders (<=4 masters) or 3 orders; for sets of 3..7 masters also every proper subset of the masters (with the default) as the only masters with values, two value vectors each; non-trivial = sets in which some non-default region has a non-zero scalar at more than one master (overlapping influence)");
     rep.set("location_sets", total.sets);
     rep.set("insertion_orders_checked", total.order_checks);
     rep.set("interpolate_from_deltas_checks", total.interp_checks);
+    rep.set("evaluations_with_values_for_a_proper_subset_of_the_masters", total.subset_evals);
     rep.set("plans", plan_notes);
     rep.set("samples", total.samples);
     rep.set("exhaustive", true);
